@@ -20,7 +20,7 @@ RULE = ("seeded models with 1-3 delays on 1-3 state variables written as past(x,
         "delays; distinct = distinct (spec, mode) hash")
 DECIDING = ['probe_points_fixed', 'probe_points_adaptive', 'euler_rows_compared', 'scipy_rows_compared', 'delays_on_nonfirst_state',
             'multi_delay_models', 'tminus_syntax', 'past_syntax', 'vectorized_models', 'long_history_runs', 'complex_history_runs',
-            'runs_with_coarser_sampling']
+            'runs_with_coarser_sampling', 'torch_euler_runs']
 ASSUMPTIONS = ['delayed variables are state variables of the operator that uses them', 'constant pre-history = declared initial state',
                'adaptive runs: PyRates records accepted steps only, its linear interpolation error is tolerated (2e-3 relative)']
 CASE_TIMEOUT = 300
@@ -412,10 +412,17 @@ def run_case(case, ctx):
             if m_s > 1:
                 kw['dts'] = m_s * dt
                 mech['runs_with_coarser_sampling'] = 1
+            # the torch backend has its own Euler loop (and must extend the history as well)
+            if mode == 'euler' and not vec and rnd.random() < 0.3:
+                kw['backend'] = 'torch'
+                mech['torch_euler_runs'] = 1
             try:
                 df = observe.run_model(spec, T=T, dt=dt, solver=mode, outputs=outputs, vectorize=vec, **kw)
             except Exception as e:
                 import traceback
+                if kw.get('backend') == 'torch' and 'must be Tensor' in str(e):
+                    # recorded finding: the history hands numpy values to torch functions
+                    res['risk'] = sorted(set(res['risk']) | {'torch_function_of_delayed_term'})
                 raise observe.Mismatch(f"loud: run raised {type(e).__name__}: {e} :: {traceback.format_exc()[-500:]}")
             if mode in ('euler', 'heun'):
                 exp = ref_fixed(ref, steps, dt, keys, heun=(mode == 'heun'))[::m_s]
